@@ -1,5 +1,6 @@
 import NodisVerif.Wire
 import NodisVerif.Model.Api
+import NodisVerif.Model.Handler4
 /- driver commands for the API-level correspondence: `api <Method> <tokens…> now=<ms> [choice=…]` -/
 namespace NodisVerif.Driver
 open Wire
@@ -165,6 +166,13 @@ def callApi (s : MState) (now : Int) (method : String) (gs : List Grp) (choice :
   | "SRandMember", [k, n] => do pure (srandmember s now (← gB k) (← gI n) (choice.getD []))
   | "SMove", [a, b, m] => do pure (smove s now (← gB a) (← gB b) (← gB m))
   -- sorted sets
+  | "GeoAdd", k :: items => do
+    let its ← items.mapM fun g => match g with
+      | .one t => (match t.splitOn ":" with
+        | [m, lo, la] => do pure ((← parseArg m), Handler4.geoScore (← hexToU64 lo) (← hexToU64 la))
+        | _ => none)
+      | _ => none
+    pure (Handler4.geoAdd s now (← gB k) its)
   | "ZAdd", [k, m, f] => do pure (zadd s now (← gB k) (← gB m) (← gF f))
   | "ZAddXX", [k, m, f] => do pure (zaddXX s now (← gB k) (← gB m) (← gF f))
   | "ZAddNX", [k, m, f] => do pure (zaddNX s now (← gB k) (← gB m) (← gF f))
